@@ -276,6 +276,8 @@ pub struct Ctx {
     pub threads: usize,
     /// replay mode: only this sub-check is run, on this case
     pub strict: bool,
+    /// VIOLATION lines reported by a second-profile child run (C02/C03)
+    pub external_violations: Vec<String>,
 }
 
 impl Ctx {
@@ -301,6 +303,7 @@ impl Ctx {
             started: StdInstant::now(),
             threads,
             strict: false,
+            external_violations: vec![],
         }
     }
 
@@ -591,6 +594,11 @@ impl Ctx {
     }
 }
 
+/// `VERIF_SURVEY=1`: development aid, never set by the registered commands
+pub fn survey_mode() -> bool {
+    std::env::var("VERIF_SURVEY").map(|v| v == "1").unwrap_or(false)
+}
+
 fn run_lane<S, St>(ctx: &Ctx, id: &str, sub: &S, strategy: St, cases: u64, seed: u64) -> (Stats, Option<(Value, Fail)>)
 where
     S: SubCheck,
@@ -626,6 +634,19 @@ where
                     let mut st = stats.borrow_mut();
                     let e = st.known_hits.entry(f.sig.clone()).or_insert((0, cj.clone()));
                     e.0 += 1;
+                }
+                return Ok(());
+            }
+            if survey_mode() {
+                // development aid: count every unlisted failure signature and keep going
+                if counting {
+                    let mut st = stats.borrow_mut();
+                    *st.classes.entry(format!("SURVEY-FAIL:{}", f.sig)).or_default() += 1;
+                    let key = format!("SURVEY-EXAMPLE:{}", f.sig);
+                    if !st.sample_classes.contains(&key) {
+                        st.sample_classes.insert(key);
+                        eprintln!("SURVEY {} :: case={} expected={} actual={}", f.sig, cj, f.expected, f.actual);
+                    }
                 }
                 return Ok(());
             }
@@ -674,6 +695,79 @@ pub fn sample_strategy<St: Strategy>(strategy: &St, seed: u64, n: usize) -> Vec<
 }
 
 // ---------------------------------------------------------------------------------------------
+// second profile (C02, C03): the same check in the `release` build (wrapping arithmetic, no debug assertions)
+
+impl Ctx {
+    /// Runs this property in the release-profile binary named by TVERIF_RELEASE_BIN (built by ./check) and
+    /// folds its result into this run: VIOLATION lines are re-printed, its counts go into the evidence.
+    pub fn run_release_profile(&mut self) {
+        if std::env::var("TVERIF_CHILD").is_ok() || self.profile == "release" {
+            return;
+        }
+        let Ok(bin) = std::env::var("TVERIF_RELEASE_BIN") else {
+            self.note("release profile not run: TVERIF_RELEASE_BIN not set (run through ./check)");
+            self.extra.insert("release_profile".into(), json!({"ran": false}));
+            return;
+        };
+        if !std::path::Path::new(&bin).exists() {
+            self.note(format!("release profile not run: {bin} does not exist"));
+            self.extra.insert("release_profile".into(), json!({"ran": false}));
+            return;
+        }
+        let ev_path = format!("{}/replays/{}-release-evidence.json", VERIF_DIR, self.id);
+        let out = std::process::Command::new(&bin)
+            .arg(self.id)
+            .arg(self.tier.name())
+            .arg("--evidence-path")
+            .arg(&ev_path)
+            .env("TVERIF_CHILD", "1")
+            .env("VERIF_SEED", self.seed.to_string())
+            .output();
+        match out {
+            Ok(o) => {
+                let text = String::from_utf8_lossy(&o.stdout).to_string();
+                let code = o.status.code().unwrap_or(-1);
+                let mut lines = text.lines().peekable();
+                while let Some(l) = lines.next() {
+                    if l.starts_with("VIOLATION") {
+                        let mut block = format!("{l} [profile=release]");
+                        while let Some(n) = lines.peek() {
+                            if n.starts_with("  ") {
+                                block.push('\n');
+                                block.push_str(n);
+                                lines.next();
+                            } else {
+                                break;
+                            }
+                        }
+                        self.external_violations.push(block);
+                    } else if l.starts_with("KNOWN-FINDING") {
+                        println!("{l} [profile=release]");
+                    }
+                }
+                let ev: Value = std::fs::read_to_string(&ev_path).ok().and_then(|t| serde_json::from_str(&t).ok()).unwrap_or(Value::Null);
+                self.extra.insert(
+                    "release_profile".into(),
+                    json!({"ran": true, "exit_code": code, "evaluations": ev["coverage"]["evaluations"], "distinct_nontrivial": ev["coverage"]["distinct_nontrivial"],
+                           "known_findings_hit": ev["coverage"]["known_findings_hit"], "violations": ev["violations"], "wall_s": ev["wall_s"]}),
+                );
+                if code != 0 && code != 1 {
+                    println!("INCONCLUSIVE property={} release-profile run ended with status {code}", self.id);
+                    std::process::exit(2);
+                }
+                if code == 1 && self.external_violations.is_empty() {
+                    self.external_violations.push(format!("VIOLATION property={} replay={} [profile=release, see its output]", self.id, ev_path));
+                }
+            }
+            Err(e) => {
+                println!("INCONCLUSIVE property={} cannot start the release-profile binary: {e}", self.id);
+                std::process::exit(2);
+            }
+        }
+    }
+}
+
+// ---------------------------------------------------------------------------------------------
 // evidence + exit
 
 impl Ctx {
@@ -710,7 +804,7 @@ impl Ctx {
             "coverage": Value::Object(cov),
             "assumptions": self.assumptions,
             "wall_s": self.started.elapsed().as_secs_f64(),
-            "violations": self.violations.len(),
+            "violations": self.violations.len() + self.external_violations.len(),
         })
     }
 
@@ -748,7 +842,10 @@ impl Ctx {
             self.violations.len(),
             self.started.elapsed().as_secs_f64()
         );
-        if self.violations.is_empty() {
+        for l in &self.external_violations {
+            println!("{l}");
+        }
+        if self.violations.is_empty() && self.external_violations.is_empty() {
             0
         } else {
             1
